@@ -180,3 +180,39 @@ EULER_ARITH = [('AngularAcceleration', '*', 'TimeInterval'), ('AngularSpeed', '*
                ('InertiaMoment', '+', 'InertiaMoment')]
 KIN_ARITH = [('number', '*', 'AngularPosition'), ('number', '*', 'AngularSpeed'), ('number', '*', 'AngularAcceleration')]
 TORQUE_ARITH = [('Torque', '*', 'number'), ('Torque', '/', 'number'), ('Torque', '-', 'Torque')]
+
+
+_C05_CACHE = {}
+
+
+def absorb_cmp(model, rep, rule, kinds):
+    """comparisons between quantities are evaluated natively by the engines; the predicates the dunders really implement
+    (tolerance side, operand order, foreign kinds) are C05's comparison rule, re-read here for the kinds the property compares"""
+    from sa.core import Report
+    from sa.units import UnitTables
+    from sa.sx import SX
+    from sa import sx as sxm
+    import checks.c05 as c05
+    key = id(model)
+    if key not in _C05_CACHE:
+        saved = set(sxm.POSITIVE_ATOMS)
+        sxm.POSITIVE_ATOMS.clear()
+        dep = Report('C05')
+        tables = UnitTables(model)
+        c05.check_cmp(model, dep, SX(model, tables), tables)
+        sxm.POSITIVE_ATOMS.clear()
+        sxm.POSITIVE_ATOMS.update(saved)
+        _C05_CACHE.clear()
+        _C05_CACHE[key] = dep
+    dep = _C05_CACHE[key]
+    pairs = set()
+    for a in kinds:
+        for b in kinds:
+            pairs.add(f'[{a},{b}]')
+    n = 0
+    for i in dep.instances:
+        if i.rule == 'C05.cmp' and any(i.construct.endswith(p) for p in pairs):
+            n += 1
+            (rep.holds if i.status == 'HOLDS' else (rep.violation if i.status == 'VIOLATION' else rep.cannot))(rule, i.construct, i.detail, i.loc)
+    rep.require(rule, 6, 'six comparison dunders per kind')
+    return n
